@@ -18,7 +18,7 @@ META = {
              "one side; distinct by structural hash; non-trivial = contains a Barrier/annotation kind or an explicit relation"),
     "assumptions": ["copies are compared position-wise along the operation listing (signature, relation type, index of the referenced operation, schedule relative to the first start)"],
     "floors": {
-        "quick": {"copies_compared": 6000, "mutation_independence_checks": 3000, "kinds_min_instances": 20, "unrolled_copies_compared": 5000},
+        "quick": {"copies_compared": 6000, "mutation_independence_checks": 3000, "kinds_min_instances": 20, "unrolled_copies_compared": 5000, "listed_then_copied_compared": 5000},
         "thorough": {"copies_compared": 60000, "mutation_independence_checks": 30000, "kinds_min_instances": 200},
     },
 }
@@ -173,6 +173,24 @@ def check_program(prog: Dict[str, Any], acc: Acc, flags=None):
             ops_k, t_k = listing_with_shadow(target)
             compare_snapshots(acc, case, route, snapshot(ops_u, t_u), snapshot(ops_k, t_k))
             acc.count("unrolled_copies_compared")
+        # ---- route 5: copy of a circuit that was LISTED before (listing hands relation links to head operations; the copy must
+        #      not depend on it - defect 15 of DESIGN.md 9.1, repaired)
+        built5 = bp.build(prog, bp.Ctx(prog.get("settings")))
+        listed = built5.top.circuit
+        ops_l, t_l = listing_with_shadow(listed)
+        snap_l = snapshot(ops_l, t_l)
+        if snap_l != snap_o:
+            acc.finding("copy/rebuild-differs", "two builds of the same program list differently", case, None)
+        copy5 = listed.circuit_structure.copy()
+        outer5 = DeclarativeCircuit()
+        outer5.add(listed)
+        for route, target in (("structure.copy after a listing", copy5), ("add to empty circuit after a listing", outer5)):
+            ops_k, t_k = listing_with_shadow(target)
+            compare_snapshots(acc, case, route, snap_l, snapshot(ops_k, t_k))
+            if acquisition(ops_l) != acquisition(ops_k) and all(i >= 0 for pair in acquisition(ops_l) for i in pair) and route.startswith("add"):
+                acc.finding("copy/acquisition-indices", f"acquisition indices of the copy differ from the original's ({route})", case,
+                            {"original": acquisition(ops_l)[:6], "copy": acquisition(ops_k)[:6]})
+            acc.count("listed_then_copied_compared")
         # ---- independence: mutate one side, the other side's snapshot must not move
         if mut["route"] == "structure_copy":
             # wrap the structure copy so that the DeclarativeCircuit mutators are available on it
